@@ -41,6 +41,7 @@ the following, each valid for ALL inputs:
 Not accepted (fails closed as before): loops, try, with, augmented assignment, attribute stores, calls the executor
 does not know, a decorated function, delegation to a helper that normalize.py cannot inline."""
 import ast, sys
+import re as re_
 from translate import pylite as P
 
 try:
@@ -262,6 +263,67 @@ def uses(fn, rename):
     if meth not in ("search", "match"):
         U("%s.%s is not modelled" % (rename, meth))
     return {"search": "MSearch", "match": "MMatch"}[meth]
+
+
+def tor_steps(fn):
+    """tor._Common.hint_to_endpoint read statement by statement: the ORDER of its five steps (pattern match, rejection of
+    a hint that does not match, binding of host / port, rejection of a non-public numeric address, waiting for the
+    handler's Tor) -> list of constructor names of FurlGen.tor_step; the last two statements must be the endpoint
+    constructor and the return.  Anything else fails closed.  Whether the order is a good one is for the theorems
+    (lib/TorStateProofs.v) to say, not for the translator."""
+    norm = lambda n: " ".join((ast.unparse(n) if not isinstance(n, str) else n).replace('"', "'").split())
+    if [norm(d) for d in fn.decorator_list] != ["inlineCallbacks"]:
+        U("tor hint_to_endpoint is no longer decorated with exactly @inlineCallbacks")
+    if [a.arg for a in fn.args.args] != ["self", "hint", "reactor", "update_status"] or fn.args.vararg or fn.args.kwarg \
+            or fn.args.kwonlyargs or fn.args.defaults:
+        U("tor hint_to_endpoint: signature")
+    body = [st for st in fn.body if not (isinstance(st, ast.Expr) and isinstance(st.value, ast.Constant))]
+    flat = lambda n: "".join(norm(n).replace("(", " ").replace(")", " ").split())       # redundant parentheses ignored
+
+    def raises_invalid(st):
+        """`raise InvalidHintError(<text>)` whose argument cannot itself raise: a literal, or a literal % host"""
+        if not (isinstance(st, ast.Raise) and st.cause is None and isinstance(st.exc, ast.Call) and norm(st.exc.func) == "InvalidHintError"
+                and len(st.exc.args) == 1 and not st.exc.keywords):
+            return False
+        a = st.exc.args[0]
+        if isinstance(a, ast.Constant) and isinstance(a.value, str):
+            return True
+        return (isinstance(a, ast.BinOp) and isinstance(a.op, ast.Mod) and isinstance(a.left, ast.Constant) and isinstance(a.left.value, str)
+                and a.left.value.count("%") == 1 and a.left.value.count("%s") == 1 and norm(a.right) in ("host", "(host,)", "hint", "(hint,)"))
+
+    def wait(st):
+        return (isinstance(st, ast.Assign) and isinstance(st.value, ast.Yield)
+                and flat(st) == flat("socks_endpoint = yield self._maybe_connect(reactor, update_status)"))
+
+    def kind(st):
+        t = norm(st)
+        if re_.fullmatch(r"mo = HINT_RE\.(search|match)\(hint\)", t):
+            return "TsMatch"
+        if isinstance(st, ast.If) and not st.orelse and len(st.body) == 1 and raises_invalid(st.body[0]):
+            c = norm(st.test)
+            if c in ("not mo", "mo is None"):
+                return "TsRejectNoMatch"
+            if c == "is_non_public_numeric_address(host)":
+                return "TsRejectNonPublic"
+        if isinstance(st, ast.Assign) and flat(st) == flat("host, portnum = mo.group(1), int(mo.group(2))"):
+            return "TsBind"
+        if wait(st):
+            return "TsWaitTor"
+        if isinstance(st, ast.With) and len(st.items) == 1 and st.items[0].optional_vars is None and len(st.body) == 1 and wait(st.body[0]):
+            c = st.items[0].context_expr           # add_context(update_status, 'text'): a status effect, dropped
+            if isinstance(c, ast.Call) and norm(c.func) == "add_context" and len(c.args) == 2 and not c.keywords \
+                    and norm(c.args[0]) == "update_status" and isinstance(c.args[1], ast.Constant) and isinstance(c.args[1].value, str):
+                return "TsWaitTor"
+        U("tor hint_to_endpoint: statement not modelled: %s" % t[:160])
+
+    if len(body) < 2 or norm(body[-2]) != "ep = txtorcon.TorClientEndpoint(host, portnum, socks_endpoint=socks_endpoint)" \
+            or not isinstance(body[-1], ast.Return) or flat(body[-1]) != flat("return ep, host"):
+        U("tor hint_to_endpoint no longer ends in the endpoint constructor and `return ep, host`")
+    steps = [kind(st) for st in body[:-2]]
+    for k in ("TsMatch", "TsRejectNoMatch", "TsBind", "TsRejectNonPublic", "TsWaitTor"):
+        if steps.count(k) != 1:
+            U("tor hint_to_endpoint: expected exactly one %s step, found %d" % (k, steps.count(k)))
+    return steps
 
 
 def need_ordered(fn, frags, where):
@@ -1169,11 +1231,18 @@ def generate():
     oenv.update(P.module_consts(om))
     oh = P.find_def(om, "_Common.hint_to_endpoint")
     emit_pattern("TOR_HINT_RE", compiled_pattern(om, oenv, "HINT_RE"), uses(oh, "HINT_RE"))
-    need(oh, ["if not mo:\n        raise InvalidHintError(",
-              "(host, portnum) = (mo.group(1), int(mo.group(2)))",
-              "if is_non_public_numeric_address(host):\n        raise InvalidHintError(",
-              "ep = txtorcon.TorClientEndpoint(host, portnum, socks_endpoint=socks_endpoint)",
-              "return (ep, host)"], "tor hint_to_endpoint")
+    # every statement of the handler and the ORDER of its steps: in particular where it starts to wait for its Tor
+    # (a launch / a control connection that may take for ever or fail) relative to the two rejections
+    out.append("(* tor._Common.hint_to_endpoint, statement by statement up to the endpoint constructor (translate/g_furl.py tor_steps) *)")
+    out.append("Inductive tor_step := TsMatch | TsRejectNoMatch | TsBind | TsRejectNonPublic | TsWaitTor.")
+    out.append("Definition TOR_STEPS : list tor_step := [%s]." % "; ".join(tor_steps(oh)))
+    # _maybe_connect: the first caller starts _connect, everybody gets a Deferred of the one-shot observer list that
+    # _connect's result fires (model: lib/TorState.v tor_state; compared with real handlers on every run)
+    need_ordered(P.find_def(om, "_Common._maybe_connect"),
+                 ["if not self._connected:", "self._connected = True", "d = self._connect(reactor, update_status)",
+                  "d.addBoth(self._when_connected.fire)", "return self._when_connected.whenFired()"], "tor _maybe_connect")
+    if P.find_def(om, "_Common._maybe_connect").decorator_list:
+        U("tor _maybe_connect is decorated")
 
     # ---- connections/i2p.py
     im = P.load("connections/i2p.py")
